@@ -216,3 +216,21 @@ def code_boundary_pair(rng, bits=None):
         if rng.random() < 0.5:
             pred[2, a + 1:a + 3] = p1                               # p1 also overlaps rmax
     return pred, ref
+
+
+def chain_pair(rng):
+    """two adjacent references A, B and two predictions: p1 covers most of A, p2 straddles the border with its larger part in A --
+    p2's best candidate (A) is taken by the better p1, so a best-first one-to-one matcher must fall back to (p2, B)"""
+    la, lb = rng.randint(8, 14), rng.randint(6, 10)
+    h = rng.choice([1, 1, 2])
+    w = la + lb + rng.randint(0, 3)
+    ref = np.zeros((h, w), np.uint8); pred = np.zeros((h, w), np.uint8)
+    ref[:, 0:la] = 1; ref[:, la:la + lb] = 2
+    cut = la - rng.randint(3, 5)
+    pred[:, 0:cut] = 1
+    pred[:, cut:la + rng.randint(2, 4)] = 2
+    if rng.random() < 0.5:
+        pred, ref = pred[:, ::-1].copy(), ref[:, ::-1].copy()
+    if rng.random() < 0.3:
+        pred, ref = pred.T.copy(), ref.T.copy()
+    return pred, ref
